@@ -29,6 +29,7 @@ loop:
 		return
 	}
 	itm := (*Item)(it.iter.Get())
+	vyield(SiteSkipUnwanted)
 	if itm.bornSn > it.snap.sn || (itm.deadSn > 0 && itm.deadSn <= it.snap.sn) {
 		it.iter.Next()
 		it.count++
@@ -82,6 +83,7 @@ func (it *Iterator) Next() {
 func (it *Iterator) Refresh() {
 	if it.Valid() {
 		itm := it.snap.db.ptrToItem(it.GetNode().Item())
+		vyield(SiteIterRefresh)
 		it.iter.Close()
 		it.iter = it.snap.db.store.NewIterator(it.snap.db.iterCmp, it.buf)
 		it.iter.Seek(unsafe.Pointer(itm))
